@@ -438,8 +438,11 @@ def worker_value_twins(rec, shard, nshards, setups, seed):
         if st.ext_tag is not None:
             between.append(Leaf(st.ext_tag, "/a"))
         between.append(Leaf(st.plain3[0]))
+        # the cases of one subject stay in one shard: the count of reported repetitions without a third member is the
+        # reference for the same pair with an unrelated third member (an unrelated sibling neither adds nor hides one)
         cases = [(t, a, b, o) for (t, a, b) in subjects for o in between]
-        for ci in core.shard_order(len(cases), shard, nshards, seed):
+        alone = {}
+        for ci in [i for i in range(len(cases)) if (i // len(between)) % nshards == shard]:
             t, va, vb, other = cases[ci]
             forms = ["short", "long"] + list(range(1, len(t.terms()) - 1))
             spell = []
@@ -448,15 +451,17 @@ def worker_value_twins(rec, shard, nshards, setups, seed):
                     sp = Leaf(t).text(f, case)
                     if sp not in spell:
                         spell.append(sp)
-            for nested in (False, True):
+            for nested in (False, True, "each-in-own-group"):
                 base_codes = None
                 base_text = None
                 for sa in spell:
                     for sb in spell:
                         items = [sa + va, sb + vb] + ([other.text()] if other is not None else [])
+                        if nested == "each-in-own-group":
+                            items = [f"({x}, {st.plain3[1].name})" for x in items]
                         for perm in itertools.permutations(items):
                             text = ", ".join(perm)
-                            if nested:
+                            if nested is True:
                                 text = f"{st.plain3[3].name}, ({text})"
                             rec.n("evaluations")
                             rec.n("transitions")
@@ -469,11 +474,57 @@ def worker_value_twins(rec, shard, nshards, setups, seed):
                             if base_codes is None:
                                 base_codes, base_text = got, text
                                 rec.state((st.label, "value-twin", t.name, va, vb, other is not None, nested))
+                                rep = got.count("TAG_EXPRESSION_REPEATED")
+                                if other is None:
+                                    alone[(t.name, va, vb, nested)] = (rep, text)
+                                elif (t.name, va, vb, nested) in alone and alone[(t.name, va, vb, nested)][0] != rep:
+                                    rec.violation("C04:value-twin:unrelated-sibling-changes-repetition-report", schema=st.label,
+                                                  without=alone[(t.name, va, vb, nested)][1], with_sibling=text,
+                                                  repeated_without=alone[(t.name, va, vb, nested)][0], repeated_with=rep)
                             elif got != base_codes:
                                 rec.violation(fingerprint("value-twin:" + ("order" if sorted(perm) == sorted(base_text.replace("(", "").replace(")", "").split(", ")[-len(perm):]) else "spelling"),
                                                           base_codes, got), schema=st.label, original=base_text, rewrite=text,
                                               codes_original=base_codes, codes_rewrite=got)
                 rec.outcome("value-twin:" + ("+".join(sorted(set(base_codes))) if base_codes else "clean"))
+
+
+def definition_twins(ctx, setups):
+    """With definitions allowed in the string: a group outside a definition that looks like a group inside it is judged the
+    same however its members are ordered or spelled (placeholders are not allowed outside definitions)."""
+    from hed.validator import HedValidator
+    from hed.models.hed_string import HedString
+    rec = ctx.rec
+    for st in setups:
+        if st.text_tag is None:
+            continue
+        v = HedValidator(st.schema, definitions_allowed=True)
+        T, P = st.text_tag, st.plain3[0]
+        inner_variants = []
+        for tsp in (T.name, T.long, T.name.lower()):
+            for psp in (P.name, P.long):
+                inner_variants += [f"({tsp}/#, {psp})", f"({psp}, {tsp}/#)"]
+        for deftext in (f"(Definition/Zq/#, ({T.name}/#, {P.name}))", f"(Definition/Zq/#, ({st.plain3[1].name}, ({T.name}/#, {P.name})))"):
+            base = None
+            for inner in dict.fromkeys(inner_variants):
+                for text in (f"{deftext}, {inner}", f"{inner}, {deftext}", f"{deftext}, ({st.plain3[2].name}, {inner})"):
+                    rec.n("evaluations")
+                    rec.n("transitions")
+                    rec.n("distinct_nontrivial")
+                    try:
+                        issues = v.validate(HedString(text, st.schema), allow_placeholders=False)
+                        codes = tuple(sorted(i["code"] for i in issues if i["severity"] == ERR))
+                    except Exception as e:
+                        rec.violation("C04:raises:" + type(e).__name__, schema=st.label, text=text, error=repr(e)[:200])
+                        continue
+                    key = text.count("(")        # compare like with like (same nesting shape)
+                    if base is None:
+                        base = {}
+                    if key not in base:
+                        base[key] = (codes, text)
+                    elif codes != base[key][0]:
+                        rec.violation(fingerprint("definition-twin", base[key][0], codes), schema=st.label,
+                                      original=base[key][1], rewrite=text, codes_original=base[key][0], codes_rewrite=codes)
+            rec.outcome("definition-twin")
 
 
 def dup_fingerprint(G, base, got):
@@ -502,6 +553,7 @@ def run(ctx):
     ctx.parallel(worker_dups, setups, ctx.thorough, ctx.seed)
     ctx.parallel(worker_reserved, setups, ctx.thorough, ctx.seed)
     ctx.parallel(worker_value_twins, setups, ctx.seed)
+    definition_twins(ctx, setups)
     ctx.parallel(worker_malformed, setups, ctx.pick((2, 2, 2), (3, 2, 2)), ctx.seed)
     ctx.rec.counts["states"] = len(ctx.rec.states)
 
